@@ -17,7 +17,7 @@ open GoSecs GoSecs.Secs2 GoSecs.Hsms GoSecs.Framing
 /-- The size cap both `DecodeHSMSMessage` (`maxHSMSMsgLen = secs2.MaxByteSize`) and `readFrame`
     (`secs2.MaxByteSize`) compare against, and the SType / reject-reason constants. -/
 theorem consts_gen :
-    Gen.secs2_MaxByteSize = (maxMsgLen : Int) ∧ Gen.hsms_DataMsgType = (stData : Int) ∧
+    Gen.secs2_MaxByteSize = (maxMsgLen : Int) ∧ Gen.hsms_maxHSMSMsgLen = (maxMsgLen : Int) ∧ Gen.hsms_DataMsgType = (stData : Int) ∧
     Gen.hsms_RejectSTypeNotSupported = 1 ∧ Gen.hsms_RejectPTypeNotSupported = 2 ∧
     Gen.hsms_SelectedState = 2 := by
   decide
